@@ -208,6 +208,22 @@ Theorem C05_escape_after_pending_key : forall (v : Z -> bool) (flush : bool) (k 
 Proof. exact escape_after_any_pending. Qed.
 Print Assumptions C05_escape_after_pending_key.
 
+(* ... and with TWO keys pending (first key of a three-key row; second key any
+   key of the table or a key the table does not mention): never waits; a
+   three-key call is _back_to_navigation, otherwise one or two keys are
+   consumed and the rest is looked at again. *)
+Theorem C05_escape_after_two_pending_keys : forall (v : Z -> bool) (flush : bool) (k1 k2 : Z),
+  In (k1, k2) pending_pairs ->
+  v a_vi_mode = true -> v a_emacs_mode = false -> v a_buffer_has_focus = true ->
+  v a_in_quoted_insert = false ->
+  escape_progress3 (match_step bindings v [k1; k2; K_Escape] flush) = true.
+Proof. exact escape_after_two_pending. Qed.
+Print Assumptions C05_escape_after_two_pending_keys.
+
+Theorem C05_fresh_key_is_fresh : mem_Z fresh_key table_keys = false.
+Proof. exact fresh_key_is_fresh. Qed.
+Print Assumptions C05_fresh_key_is_fresh.
+
 Theorem C05_pending_key_is_first_key : forall (v : Z -> bool) (flush : bool) (k : Z),
   match_step bindings v [k] flush = Wait -> In k first_keys \/ In K_Any first_keys.
 Proof. exact pending_key_is_first_key. Qed.
